@@ -86,10 +86,26 @@ def extract(config, repo='/repo', tag=None):
             shutil.copy(lockfile, os.path.join(work, 'Cargo.lock'))
         if os.path.exists(out):
             shutil.rmtree(out)
+        # fact directories left behind by processes that are gone (pool workers do not run atexit handlers)
+        for old_out in glob.glob(os.path.join(CACHE, 'out', '*')):
+            pid_s = old_out.rsplit('-', 1)[-1]
+            if pid_s.isdigit() and int(pid_s) != os.getpid() and not os.path.exists('/proc/%s' % pid_s):
+                shutil.rmtree(old_out, ignore_errors=True)
         os.makedirs(out)
+        # everything cargo keeps about the two crates under analysis is thrown away before every run: the fingerprints
+        # (so that the analysis is never replayed from a cache) and the artefacts themselves (each scratch tree has its own
+        # path, so they would pile up - 100 GB after a day of self-tests - and are never reused)
         for pat in ('fatfs-*', 'vf_witness-*'):
             for p in glob.glob(os.path.join(target, 'debug', '.fingerprint', pat)):
                 shutil.rmtree(p, ignore_errors=True)
+            for sub in ('incremental', ):
+                for p in glob.glob(os.path.join(target, 'debug', sub, pat)):
+                    shutil.rmtree(p, ignore_errors=True)
+            for p in glob.glob(os.path.join(target, 'debug', 'deps', '*' + pat)):
+                try:
+                    os.remove(p)
+                except OSError:
+                    pass
         nonce = uuid.uuid4().hex
         env = dict(os.environ)
         env.update({
